@@ -66,8 +66,10 @@ func NewSet(name string, loaders ...TemplateLoader) *TemplateSet {
 	}
 
 	return &TemplateSet{
-		name:          name,
-		loaders:       loaders,
+		name: name,
+		// (a copy: AddLoader must not write into the caller's slice, which
+		// another set may have been built from)
+		loaders:       append([]TemplateLoader(nil), loaders...),
 		Globals:       make(Context),
 		bannedTags:    make(map[string]bool),
 		bannedFilters: make(map[string]bool),
